@@ -230,7 +230,7 @@ def render(ir):
         emit("return |%s| {" % ("first" if f["param"] else ""), 2)
         emit("var acc = %d; var inbox = %s; var c = 0; var bump = || { c = c + 1; return c; };" % (
             i + 1, "first" if f["param"] else "nil"), 3)
-        emit("var mine = 0; exports[me] = || { mine = mine + 1; return mine; };", 3)
+        emit("var mine = [0]; exports[me] = || { mine = [mine[0] + 1]; return mine[0]; };", 3)
         block(f["body"], 3)
         emit("};", 2)
         emit("};", 1)
